@@ -219,6 +219,7 @@ pub fn gen_extra(tier: &str, rng: &mut Rng, out: &mut Vec<String>) {
     gen_shapes(thorough, rng, out);
     gen_big(thorough, rng, out);
     gen_async(thorough, rng, out);
+    gen_generated(thorough, rng, out);
 }
 
 // ---------------------------------------------------------------------------------------------
@@ -667,5 +668,243 @@ pub fn execute_async(c: &Case) -> String {
         parts.push(s.out.clone().unwrap_or_else(|| "out-missing".into()));
     }
     parts.push(format!("calls {}", g.calls));
+    parts.join(" ")
+}
+
+// ---------------------------------------------------------------------------------------------
+// generated entry points (tonic-build's `with_interceptor`, here the checked-in tonic-health code):
+//
+// * `gsrv`   — `HealthServer::with_interceptor(handler, f)`: what the HANDLER is given (`tonic::Request`
+//              metadata / extensions / message after `server::Grpc::unary`) or that it is not run at all.
+//              Grammar of the plain kinds; every call is `POST /grpc.health.v1.Health/Check` with a body that is
+//              one length-prefixed `HealthCheckRequest` (in any chunking).  Observed per call:
+//              `isaw.. (iret..|irej..) (handler hdrs xext 1 <frame> notr gaccepted | nohandler out..)`.
+//              `resp`: `e n` = the handler answers `Err(code n % 17)`, `r ..` = `Ok(SERVING)`.
+// * `client gen ..` (executor in c12.rs) — `HealthClient::with_interceptor(transport, f).watch(req)`.
+
+use tonic_health::pb::health_server::{Health, HealthServer};
+use tonic_health::pb::{HealthCheckRequest, HealthCheckResponse};
+
+pub fn health_request_bytes(service: &str) -> Vec<u8> {
+    use prost::Message;
+    HealthCheckRequest { service: service.to_string() }.encode_to_vec()
+}
+
+fn grpc_frame(m: &[u8]) -> Vec<u8> {
+    let mut v = vec![0u8];
+    v.extend_from_slice(&(m.len() as u32).to_be_bytes());
+    v.extend_from_slice(m);
+    v
+}
+
+const HEALTH_SERVICES: [&str; 6] = ["", "pkg.Svc", "grpc.health.v1.Health", "h\u{e9}llo", "a", "x.y.z/w"];
+
+fn gen_generated(thorough: bool, rng: &mut Rng, out: &mut Vec<String>) {
+    let n = if thorough { 6_000 } else { 500 };
+    for i in 0..n {
+        let ncalls = rng.range(1, 4);
+        let calls: Vec<Call> = (0..ncalls)
+            .map(|_| {
+                let mut k = gen_call(rng);
+                k.method = b"POST".to_vec();
+                k.uri = canon_uri(*rng.pick(&["/grpc.health.v1.Health/Check", "/grpc.health.v1.Health/Check", "http://h:1/grpc.health.v1.Health/Check", "/grpc.health.v1.Health/Check?x=1"]));
+                // tonic decides about compression / timeouts / content from these: keep them off this tie
+                k.hdrs.0.retain(|e| {
+                    let n = e.0.to_ascii_lowercase();
+                    n != b"grpc-encoding" && n != b"grpc-timeout" && n != b"grpc-accept-encoding"
+                });
+                let frame = grpc_frame(&health_request_bytes(*rng.pick(&HEALTH_SERVICES)));
+                // any chunking of the one frame
+                let mut chunks: Vec<Vec<u8>> = Vec::new();
+                let mut rest = &frame[..];
+                while !rest.is_empty() {
+                    let take = if rng.chance(1, 2) { rest.len() } else { 1 + rng.below(rest.len() as u64) as usize };
+                    chunks.push(rest[..take].to_vec());
+                    rest = &rest[take..];
+                    if rng.chance(1, 6) {
+                        chunks.push(vec![]);
+                    }
+                }
+                k.body = BodyScript { chunks, trailers: None };
+                k
+            })
+            .collect();
+        let mut present: Vec<Vec<u8>> = calls.iter().flat_map(|c| present_names(&c.hdrs)).collect();
+        present.sort();
+        present.dedup();
+        let nscripts = rng.range(0, 3);
+        let mut scripts: Vec<Script> = (0..nscripts).map(|_| gen_script(rng, &present, 35)).collect();
+        for sc in &mut scripts {
+            sc.ops.retain(|op| {
+                let name = match op {
+                    Op::HIns(n, ..) | Op::HApp(n, ..) | Op::MIns(n, ..) | Op::MApp(n, ..) | Op::Cnt(n) => n.to_ascii_lowercase(),
+                    _ => Vec::new(),
+                };
+                name != b"grpc-encoding" && name != b"grpc-timeout" && name != b"grpc-accept-encoding"
+            });
+        }
+        let via = if i % 2 == 0 { "gen" } else { "new" };
+        out.push(render(&Case { kind: "gsrv".into(), via: via.into(), scripts, calls }));
+    }
+    // client side: HealthClient::with_interceptor(..).watch(..)
+    let n = if thorough { 6_000 } else { 500 };
+    for _ in 0..n {
+        let mut c = gen_client_case(rng);
+        c.via = "gen".into();
+        for k in &mut c.calls {
+            k.prefix = Vec::new();
+            k.opath = b"/".to_vec();
+            k.oquery = false;
+            k.path = b"/grpc.health.v1.Health/Watch".to_vec();
+            k.msg = health_request_bytes(*rng.pick(&HEALTH_SERVICES));
+        }
+        out.push(render_client(&c));
+    }
+}
+
+struct GShared {
+    lines: Vec<Vec<String>>,
+    cur: usize,
+    handler_calls: usize,
+    plan: Vec<Resp>,
+}
+struct GHandler(Arc<Mutex<GShared>>);
+
+#[tonic::async_trait]
+impl Health for GHandler {
+    async fn check(&self, request: tonic::Request<HealthCheckRequest>) -> Result<tonic::Response<HealthCheckResponse>, Status> {
+        use prost::Message;
+        let (md, ext, msg) = request.into_parts();
+        let mut g = self.0.lock().unwrap();
+        g.handler_calls += 1;
+        let cur = g.cur;
+        g.lines[cur].push(format!(
+            "handler {} {} 1 {} notr",
+            show_headers(&md.into_headers()),
+            show_ext(&ext),
+            hex(&grpc_frame(&msg.encode_to_vec()))
+        ));
+        match &g.plan[cur] {
+            Resp::E(n) => Err(Status::new(Code::from_i32((*n % 17) as i32), "handler says no")),
+            Resp::R { .. } => Ok(tonic::Response::new(HealthCheckResponse { status: 1 })),
+        }
+    }
+    type WatchStream = tokio_stream::Empty<Result<HealthCheckResponse, Status>>;
+    async fn watch(&self, _request: tonic::Request<HealthCheckRequest>) -> Result<tonic::Response<Self::WatchStream>, Status> {
+        Err(Status::unimplemented("watch is not part of this tie"))
+    }
+}
+
+pub fn execute_gsrv(c: &Case) -> String {
+    use prost::Message;
+    for k in &c.calls {
+        let whole: Vec<u8> = k.body.chunks.concat();
+        let ok = k.method == b"POST"
+            && k.body.trailers.is_none()
+            && whole.len() >= 5
+            && whole[0] == 0
+            && u32::from_be_bytes([whole[1], whole[2], whole[3], whole[4]]) as usize == whole.len() - 5
+            && HealthCheckRequest::decode(&whole[5..]).map(|m| m.encode_to_vec() == whole[5..]).unwrap_or(false)
+            && std::str::from_utf8(&k.uri).ok().and_then(|s| s.parse::<http::Uri>().ok()).map(|u| u.path() == "/grpc.health.v1.Health/Check").unwrap_or(false)
+            && version_of(k.version).is_some()
+            && mk_headers(&k.hdrs).is_some()
+            && k.ready == 0;
+        if !ok {
+            return "bad-case".into();
+        }
+    }
+    let sh = Arc::new(Mutex::new(GShared { lines: vec![Vec::new(); c.calls.len()], cur: 0, handler_calls: 0, plan: c.calls.iter().map(|k| k.resp.clone()).collect() }));
+    let scripts = c.scripts.clone();
+    let sh2 = sh.clone();
+    let mut count = 0usize;
+    let icpt = move |req: tonic::Request<()>| -> Result<tonic::Request<()>, Status> {
+        let mine = count;
+        count += 1;
+        let push = |s: String| {
+            let mut g = sh2.lock().unwrap();
+            let cur = g.cur;
+            g.lines[cur].push(s);
+        };
+        push(format!("isaw {} {}", show_headers(&req.metadata().clone().into_headers()), show_ext(req.extensions())));
+        let mut req = req;
+        let mut rej = None;
+        if !scripts.is_empty() {
+            let sc = &scripts[mine % scripts.len()];
+            for op in &sc.ops {
+                req = apply_op(op, mine, req);
+            }
+            rej = sc.rej.clone();
+        }
+        match rej {
+            None => {
+                push(format!("iret {} {}", show_headers(&req.metadata().clone().into_headers()), show_ext(req.extensions())));
+                Ok(req)
+            }
+            Some(r) => {
+                let st = mk_status(&r);
+                push(format!("irej {}", show_status_fields(&st)));
+                Err(st)
+            }
+        }
+    };
+    // the generated constructor, or (control) the same composition spelled out
+    let mut svc = match c.via.as_str() {
+        "gen" => HealthServer::with_interceptor(GHandler(sh.clone()), icpt),
+        _ => InterceptedService::new(HealthServer::new(GHandler(sh.clone())), icpt),
+    };
+    for (idx, k) in c.calls.iter().enumerate() {
+        sh.lock().unwrap().cur = idx;
+        let before = sh.lock().unwrap().handler_calls;
+        let mut req = http::Request::new(ScriptBody::new(&k.body).unwrap());
+        *req.method_mut() = http::Method::POST;
+        *req.version_mut() = version_of(k.version).unwrap();
+        *req.uri_mut() = std::str::from_utf8(&k.uri).unwrap().parse::<http::Uri>().unwrap();
+        *req.headers_mut() = mk_headers(&k.hdrs).unwrap();
+        *req.extensions_mut() = mk_ext(&k.ext);
+        let mut cx = Context::from_waker(Waker::noop());
+        if !matches!(Service::<http::Request<ScriptBody>>::poll_ready(&mut svc, &mut cx), Poll::Ready(Ok(()))) {
+            sh.lock().unwrap().lines[idx].push("notready pending".into());
+            continue;
+        }
+        let mut fut = Box::pin(svc.call(req));
+        let res = poll_counted(&mut fut, 10_000);
+        let after = sh.lock().unwrap().handler_calls;
+        let rejected = sh.lock().unwrap().lines[idx].iter().any(|l| l.starts_with("irej"));
+        let line = match res {
+            Err(t) => format!("out-{t}"),
+            Ok((Err(e), _)) => match e {},
+            Ok((Ok(res), _)) => {
+                let mut pre = String::new();
+                if after == before {
+                    pre.push_str("nohandler ");
+                } else if after != before + 1 {
+                    pre.push_str(&format!("handler-calls {} ", after - before));
+                }
+                if !rejected && after == before + 1 {
+                    // the handler's answer (encoded by the generated server) is not part of this tie
+                    "gaccepted".to_string()
+                } else {
+                    let (parts, body) = res.into_parts();
+                    let eos = body.is_end_stream();
+                    let hint = body.size_hint();
+                    format!(
+                        "{pre}out {} {} {} {} {} {} {} {}",
+                        parts.status.as_u16(),
+                        version_tok(parts.version),
+                        show_headers(&parts.headers),
+                        show_ext(&parts.extensions),
+                        if eos { 1 } else { 0 },
+                        hint.lower(),
+                        opt_tok(hint.upper().map(|x| x as u128)),
+                        drain_counted(Box::pin(body))
+                    )
+                }
+            }
+        };
+        sh.lock().unwrap().lines[idx].push(line);
+    }
+    let g = sh.lock().unwrap();
+    let mut parts: Vec<String> = g.lines.iter().flatten().cloned().collect();
+    parts.push(format!("calls {}", g.handler_calls));
     parts.join(" ")
 }
